@@ -45,6 +45,8 @@ type C15Case struct {
 	Fault *faultSpec `json:"fault,omitempty"`
 	// Exec: "" | ipset | iptables - the manager under test uses galaxy's exec-backed runner for that tool
 	Exec string `json:"exec_mode,omitempty"`
+	// HostOverride: the manager under test runs with --hostname-override=Node-A (pods carry node-a)
+	HostOverride bool `json:"hostname_override_upper_case,omitempty"`
 }
 
 // faultSpec: the K-th ipset / iptables operation of one entry-point call fails once (the tool fails, nothing reaches
@@ -174,6 +176,7 @@ func genC15Case(rng *rand.Rand, idx int, o genOpts) *C15Case {
 	case 3:
 		cs.Exec = "iptables"
 	}
+	cs.HostOverride = (idx/(4*len(c15Modes)))%8 == 1
 	return cs
 }
 
@@ -1144,7 +1147,7 @@ func evalC15Base(cs *C15Case) *c15Result {
 	res := &c15Result{counters: map[string]int64{}, viols: map[string]*violation{}, callOps: map[string][2]int{},
 		callBases: map[string]map[string]bool{}}
 	w := newWorld()
-	e := newEnvMode(w, cs.Exec)
+	e := newEnvFull(w, cs.Exec, cs.HostOverride)
 	if cs.Foreign {
 		if err := plantForeign(e); err != nil {
 			res.addViol("polsim-harness-plant-foreign-failed", err.Error(), nil)
@@ -1231,6 +1234,7 @@ func evalC15Base(cs *C15Case) *c15Result {
 			ev := cs.Events[k]
 			ctx := ctxNow()
 			e.arm("", 0)
+			e.enter()
 			pi := deliver[k-i]()
 			callID := fmt.Sprintf("event:%d", k)
 			res.callOps[callID] = [2]int{e.ipsetCalls, e.iptCalls}
@@ -1441,6 +1445,9 @@ func evalC15Base(cs *C15Case) *c15Result {
 	if u := e.execReport(res.counters); u != "" {
 		res.inconclusive = "exec interpreter met an unknown command: " + u
 	}
+	if cs.HostOverride {
+		res.counters["cases_with_upper_case_hostname_override"]++
+	}
 	return res
 }
 
@@ -1453,7 +1460,7 @@ func evalC15Fault(cs *C15Case, f *faultSpec, base *c15Result) *c15Result {
 	res := &c15Result{counters: map[string]int64{}, viols: map[string]*violation{}}
 	under := "-under-" + f.Kind + "-op-fault"
 	w := newWorld()
-	e := newEnvMode(w, cs.Exec)
+	e := newEnvFull(w, cs.Exec, cs.HostOverride)
 	if cs.Foreign {
 		if plantForeign(e) != nil {
 			return res
@@ -1553,10 +1560,12 @@ func evalC15Fault(cs *C15Case, f *faultSpec, base *c15Result) *c15Result {
 				ctx := ctxNow()
 				e.takeRejects()
 				e.arm(f.Kind, f.K)
+				e.enter()
 				pi := deliver[k-i]()
 				judge(fmt.Sprintf("event:%d", k), "-in-event-handler", fmt.Sprintf("event %d (%s, %s handler)", k, cs.Events[k].Kind, handler[k-i]), ctx, pi)
 				e.arm("", 0)
 			} else {
+				e.enter()
 				deliver[k-i]()
 			}
 		}
@@ -1652,6 +1661,9 @@ func c15Reductions(cs *C15Case) []*C15Case {
 	}
 	if cs.Exec != "" {
 		with(func(n *C15Case) { n.Exec = "" })
+	}
+	if cs.HostOverride {
+		with(func(n *C15Case) { n.HostOverride = false })
 	}
 	if cs.Foreign {
 		with(func(n *C15Case) { n.Foreign = false })
